@@ -101,6 +101,24 @@ def parse_axioms(out):
     return res
 
 
+def import_closure(prop_id):
+    """stems of the Reamber/Generated files reachable through `import` from Props/<id>.lean and Drv/<id>.lean"""
+    seen, todo, gen = set(), [f"Reamber.Props.{prop_id}", f"Reamber.Drv.{prop_id}"], set()
+    while todo:
+        m = todo.pop()
+        if m in seen:
+            continue
+        seen.add(m)
+        p = os.path.join(LEAN_DIR, *m.split(".")) + ".lean"
+        if not os.path.exists(p):
+            continue
+        for imp in re.findall(r"^import\s+(Reamber\.\S+)", open(p, encoding="utf-8").read(), flags=re.M):
+            if imp.startswith("Reamber.Generated."):
+                gen.add(imp.split(".")[-1])
+            todo.append(imp)
+    return gen
+
+
 def prepare(prop_id, tier, repo, log=print):
     """returns dict(build_ok, driver_ok, obligations, discharged, broken, generated_changed, checker_cmd, notes)"""
     info = dict(build_ok=False, driver_ok=False, obligations=[], discharged=[], broken=[],
@@ -113,11 +131,23 @@ def prepare(prop_id, tier, repo, log=print):
         # 1. translator
         try:
             import extract_tables
-            changed = extract_tables.write_generated(repo, os.path.join(LEAN_DIR, "Reamber", "Generated"))
+            terr = {}
+            changed = extract_tables.write_generated(repo, os.path.join(LEAN_DIR, "Reamber", "Generated"), terr)
             info["generated_changed"] = changed
             if changed:
                 log(f"[build] Generated/* rewritten from {repo}: {changed}")
-        except Exception as e:  # translator could not read the source: the tie is broken
+            # a translator that cannot read the source any more breaks the tie of exactly those properties whose
+            # theorems / driver operations import the table it writes
+            closure = import_closure(prop_id)
+            for mod, (msg, files) in terr.items():
+                hit = [f for f in files if f[:-5] in closure] if files else ["?"]
+                if hit:
+                    info["notes"].append(f"translator {mod} failed: {msg}")
+                    info["broken"].append(f"translator:{mod}")
+                    log(f"[build] translator {mod} failed (tables {files} are imported by {prop_id}): {msg}")
+                else:
+                    info["notes"].append(f"translator {mod} failed on this source but {prop_id} does not import {files}: {msg}")
+        except Exception as e:  # translator framework itself could not run: the tie is broken
             info["notes"].append(f"translator failed: {type(e).__name__}: {e}")
             info["broken"].append("translator:extract_tables")
             log(f"[build] translator failed: {e!r}")
